@@ -728,14 +728,16 @@ func Stack[V any](arguments ...any) col.StackLike[V] {
 	case sequence != nil:
 		stack = class.MakeFromSequence(sequence)
 	case len(source) > 0:
-		stack = class.Make()
+		// The values are listed from the top of the stack to the bottom.
+		var list = col.List[V](notation).Make()
 		var collection = notation.ParseSource(source).(col.Sequential[any])
 		// Convert the values to their real type.
 		var iterator = collection.GetIterator()
 		for iterator.HasNext() {
 			var value = iterator.GetNext().(V)
-			stack.AddValue(value)
+			list.AppendValue(value)
 		}
+		stack = class.MakeFromSequence(list)
 	default:
 		stack = class.Make()
 	}
